@@ -81,14 +81,11 @@ fn run(a: &vhcore::Args) -> i32 {
         roundtrip_substitute: subst,
         ..Default::default()
     };
-    let specs = vec![
-        spec("debug", false),
-        rt("debug-rt", false, false),
-        rt("debug-subst", false, true),
-        spec("release", true),
-        rt("release-rt", true, false),
-        rt("release-subst", true, true),
-    ];
+    // quick: the debug pipeline at every stage; thorough: the release pipeline (≈60 stages) as well
+    let mut specs = vec![spec("debug", false), rt("debug-rt", false, false), rt("debug-subst", false, true)];
+    if thorough {
+        specs.extend([spec("release", true), rt("release-rt", true, false), rt("release-subst", true, true)]);
+    }
     let res = run_campaign(&pool, "c05", &cases, 120, &specs);
     let mut stages = 0u64;
     let mut texts = vhcore::Distinct::default();
@@ -110,13 +107,22 @@ fn run(a: &vhcore::Args) -> i32 {
             );
         }
     };
+    // cases whose package shows the entry-flag asymmetry: substituting the re-parsed module there
+    // turns every test entry into an "original entry", so the substituted pipeline is a different
+    // program by construction; that consequence is reported once, not per case
+    let mut entry_flag_affected: std::collections::BTreeSet<usize> = Default::default();
     for b in &res.batches {
         let src = vh_comp::gen::render_package(&cases[b.first..b.first + b.len]);
         for o in &b.outs {
             if o.roundtrip_stages_checked > 0 {
                 stages += o.roundtrip_stages_checked as u64;
                 texts.add(&(o.bytecode_hash.clone(), o.label.clone(), b.first));
-                report_failures(&mut rep, &format!("batch@{}", cases[b.first].desc), &o.label, &src, o);
+                if !o.roundtrip_notes.is_empty() || o.roundtrip_failures.iter().any(|f| f.contains("entry_orig")) {
+                    entry_flag_affected.extend(b.first..b.first + b.len);
+                }
+                if !o.label.ends_with("-subst") {
+                    report_failures(&mut rep, &format!("batch@{}", cases[b.first].desc), &o.label, &src, o);
+                }
             }
         }
     }
@@ -126,6 +132,14 @@ fn run(a: &vhcore::Args) -> i32 {
         for (plain, sub) in [("debug", "debug-subst"), ("release", "release-subst")] {
             let (Some(x), Some(y)) = (cr.builds.get(plain), cr.builds.get(sub)) else { continue };
             if let Some((kind, msg)) = diff_builds(x, y) {
+                if entry_flag_affected.contains(&cr.case_idx) {
+                    rep.violation(
+                        "C05|substituted-ir-unusable|consequence-of-entry-flag-asymmetry",
+                        &format!("{} [{sub}] the pipeline continued from the re-parsed module differs ({kind}): {msg}", case.desc),
+                        vh_comp::replay::case_replay_json(case, sub, sub.starts_with("release")),
+                    );
+                    continue;
+                }
                 rep.violation(
                     &format!("C05|substituted-ir-behaves-differently|{}|{kind}", case.space),
                     &format!("{} [{sub}] {msg}", case.desc),
@@ -155,7 +169,14 @@ fn run(a: &vhcore::Args) -> i32 {
             Ok(resp) => {
                 for o in &resp.builds {
                     if !o.ok {
-                        if o.label.ends_with("-subst") && resp.builds.iter().any(|p| p.ok && o.label.starts_with(&p.label)) {
+                        let affected = resp.builds.iter().any(|p| !p.roundtrip_notes.is_empty() || p.roundtrip_failures.iter().any(|f| f.contains("entry_orig")));
+                        if o.label.ends_with("-subst") && affected {
+                            rep.violation(
+                                "C05|substituted-ir-unusable|consequence-of-entry-flag-asymmetry",
+                                &format!("{name} [{}]: build continued from the re-parsed module failed: {}", o.label, o.error),
+                                json!({"package_main_sw": src, "build": o.label}),
+                            );
+                        } else if o.label.ends_with("-subst") && resp.builds.iter().any(|p| p.ok && o.label.starts_with(&p.label)) {
                             rep.violation(
                                 &format!("C05|substituted-ir-rejected|{name}"),
                                 &format!("{name} [{}]: build with re-parsed IR failed: {} {:?}", o.label, o.error, o.panic),
@@ -167,13 +188,16 @@ fn run(a: &vhcore::Args) -> i32 {
                         continue;
                     }
                     stages += o.roundtrip_stages_checked as u64;
-                    report_failures(&mut rep, name, &o.label, src, o);
+                    if !o.label.ends_with("-subst") {
+                        report_failures(&mut rep, name, &o.label, src, o);
+                    }
                 }
                 for (plain, sub) in [(0usize, 2usize), (3, 5)] {
                     let (p, s) = (&resp.builds[plain], &resp.builds[sub]);
+                    let affected = resp.builds.iter().any(|q| !q.roundtrip_notes.is_empty());
                     if p.ok && s.ok && vh_comp::worker::tests_map(p) != vh_comp::worker::tests_map(s) {
                         rep.violation(
-                            &format!("C05|substituted-ir-behaves-differently|{name}"),
+                            &if affected { "C05|substituted-ir-unusable|consequence-of-entry-flag-asymmetry".to_string() } else { format!("C05|substituted-ir-behaves-differently|{name}") },
                             &format!("{name} [{}]: tests behave differently after IR substitution", s.label),
                             json!({"package_main_sw": src, "build": s.label}),
                         );
@@ -197,13 +221,41 @@ fn run(a: &vhcore::Args) -> i32 {
 }
 
 /// Narrow class of a round-trip failure message.
+fn norm_snippet(t: &str) -> String {
+    // value names and numbers are arena artefacts: normalise them
+    let mut out = String::new();
+    let mut word = String::new();
+    let flush = |word: &mut String, out: &mut String| {
+        if !word.is_empty() {
+            if vh_comp::irtext::is_value_name(word) {
+                out.push_str("<v>");
+            } else if word.chars().all(|c| c.is_ascii_digit()) {
+                out.push('#');
+            } else {
+                out.push_str(word);
+            }
+            word.clear();
+        }
+    };
+    for c in t.chars() {
+        if c.is_ascii_alphanumeric() || c == '_' {
+            word.push(c);
+        } else {
+            flush(&mut word, &mut out);
+            out.push(c);
+        }
+    }
+    flush(&mut word, &mut out);
+    out
+}
+
 fn classify(msg: &str) -> String {
     if let Some(rest) = msg.strip_prefix("re-parse/verify failed: ") {
         if rest.starts_with("Parse failure") {
             // keep what was expected and a few characters of what was found
-            let exp = rest.split("expected ").nth(1).unwrap_or("").chars().take(50).collect::<String>();
-            let found: String = rest.split("found '").nth(1).unwrap_or("").chars().take(12).collect();
-            return format!("reparse-fails|expected {exp}|found {}", found.replace('\n', "\\n"));
+            let exp = rest.split("expected ").nth(1).unwrap_or("").split("', found").next().unwrap_or("").chars().take(50).collect::<String>();
+            let found: String = rest.split("found '").nth(1).unwrap_or("").chars().take(14).collect();
+            return format!("reparse-fails|expected {}|found {}", norm_snippet(&exp), norm_snippet(&found.replace('\n', "\\n")));
         }
         return format!("reparsed-module-rejected|{}", rest.chars().take(60).collect::<String>());
     }
@@ -214,6 +266,12 @@ fn classify(msg: &str) -> String {
         // "token N differs: `x` vs `y` (context…)"
         let x = rest.split('`').nth(1).unwrap_or("");
         let y = rest.split('`').nth(3).unwrap_or("");
+        if y == "mut" {
+            return "second-print-differs|argument-printed-without-mut-reparses-as-mut".to_string();
+        }
+        if x == "mut" {
+            return "second-print-differs|argument-printed-with-mut-reparses-without".to_string();
+        }
         let norm = |t: &str| if t.chars().all(|c| c.is_ascii_digit()) { "<num>".to_string() } else if vh_comp::irtext::is_value_name(t) { "<value>".to_string() } else { t.chars().take(16).collect() };
         return format!("second-print-differs|`{}` vs `{}`", norm(x), norm(y));
     }
